@@ -167,6 +167,70 @@ let run_case id kind cap ordered overhead ops =
     else if img.i_shrunk then false
     else if init then img.i_imported || nlt st.r_od_init img.i_od
     else nlt st.r_od img.i_od in
+  let small (x : n) : int = if nlt (n_of_int 1000000) x then 1000000 else int_of_n x in
+  (* crash + restart of B up to and including removeLog; prints the line tagged [tag] *)
+  let restart_b tag keep =
+    if cfg.c_ondisk && keep = "1" then b.disk <- (b.st.r_sm, b.uapplied);
+    b.ns <- nstep overhead b.ns NRestart;
+    let fresh = rsm_init cap (if cfg.c_ondisk then fst b.disk else N0) in
+    let fresh = if cfg.c_ondisk then rsm_open_ondisk fresh (snd b.disk) else fresh in
+    b.uapplied <- (if cfg.c_ondisk then snd b.disk else N0);
+    b.st <- fresh;
+    let idx =
+      match b.img with
+      | None -> N0
+      | Some (img, ua) ->
+        let l = loads true b.st img in
+        (match rsm_recover cfg true b.st img with
+         | Err _ -> raise Panic
+         | Ok RecOutOfDate -> N0
+         | Ok (Recovered st') -> b.st <- st'; after_recover b img ua l; img.i_index) in
+    b.ns <- nstep overhead b.ns (NRecover (idx <> N0, true));
+    let before = remove_log b in
+    emit (Printf.sprintf "%s from=%s %s | %s" tag (string_of_n idx) (show_obs b.st) (show_aux b.st));
+    new_removals b before;
+    int_of_n idx in
+  (* a fresh follower that applied [pre] entries asks [src] for a streamed snapshot *)
+  let stream_to src ov pre =
+    if kind <> "disk" then emit "M n/a" else begin
+      let c = mk "C" in
+      c.st <- rsm_open_ondisk c.st N0;
+      let src_idx = int_of_n src.st.r_index in
+      let pre = if src_idx = 0 then 0 else min pre (src_idx - 1) in
+      if pre > 0 then ignore (deliver_quiet c (entries_from 0 pre));
+      (* node.canStream -> StateMachine.ReadyToStream *)
+      if not (rsm_ready_to_stream cfg src.st) then emit "M refused"
+      else match rsm_prepare cfg SSStreaming src.st with
+        | Err _ | Ok OutOfDate -> raise Panic
+        | Ok (Prepared (m, st1)) ->
+          src.st <- st1;
+          let ua = src.uapplied in
+          let (img, st2) = rsm_finish_save cfg m src.st in
+          (* GetEmptyLRUSession is a table of rsm.LRUMaxSessionCount, the package variable the
+             harness sets to the capacity of the case (the model's constant is the source default) *)
+          let img = { img with i_sessions = (cap, []) } in
+          src.st <- st2;
+          emit (Printf.sprintf "M stream idx=%s term=%s od=%s" (string_of_n img.i_index) (string_of_n img.i_term) (string_of_n img.i_od));
+          if nle img.i_index c.st.r_last_index then emit "M nothing-to-install"
+          else begin
+            record c img ua;
+            c.ns <- nstep overhead c.ns (NReceive img.i_index);
+            let l = loads false c.st img in
+            let got =
+              match rsm_recover cfg false c.st img with
+              | Err _ -> raise Panic
+              | Ok RecOutOfDate -> N0
+              | Ok (Recovered st') -> c.st <- st'; after_recover c img ua l; img.i_index in
+            c.ns <- nstep overhead c.ns (NRecover (got <> N0, false));
+            let before = remove_log c in
+            emit (Printf.sprintf "M installed from=%s %s | %s" (string_of_n got) (show_obs c.st) (show_aux c.st));
+            new_removals c before;
+            let g = int_of_n got in
+            let from = if g = 0 then int_of_n c.st.r_index + 1 else if g + 1 > ov then g + 1 - ov else 1 in
+            catch_up c from 0;
+            emit ("C " ^ show_obs c.st)
+          end
+    end in
   let op o =
     match split_ws o with
     | ["a"; c; s; r; cmd] ->
@@ -194,31 +258,70 @@ let run_case id kind cap ordered overhead ops =
       let before = remove_log b in
       new_removals b before
     | ["R"; ov; keep; split] ->
-      let ov = n_of_string ov and split = int_of_string split in
+      let ov = small (n_of_string ov) and split = int_of_string split in
       flush ();
-      if cfg.c_ondisk && keep = "1" then b.disk <- (b.st.r_sm, b.uapplied);
-      b.ns <- nstep overhead b.ns NRestart;
-      let fresh = rsm_init cap (if cfg.c_ondisk then fst b.disk else N0) in
-      let fresh = if cfg.c_ondisk then rsm_open_ondisk fresh (snd b.disk) else fresh in
-      b.uapplied <- (if cfg.c_ondisk then snd b.disk else N0);
-      b.st <- fresh;
-      let idx =
-        match b.img with
-        | None -> N0
-        | Some (img, ua) ->
-          let l = loads true b.st img in
-          (match rsm_recover cfg true b.st img with
-           | Err _ -> raise Panic
-           | Ok RecOutOfDate -> N0
-           | Ok (Recovered st') -> b.st <- st'; after_recover b img ua l; img.i_index) in
-      b.ns <- nstep overhead b.ns (NRecover (idx <> N0, true));
-      let before = remove_log b in
-      emit (Printf.sprintf "R from=%s %s | %s" (string_of_n idx) (show_obs b.st) (show_aux b.st));
-      new_removals b before;
+      let idx = restart_b "R" keep in
       b.lag <- false;
-      let idx = int_of_n idx in
-      let ovi = if nlt (n_of_int 1000000) ov then 1000000 else int_of_n ov in
-      catch_up b (if idx + 1 > ovi then idx + 1 - ovi else 1) split
+      catch_up b (if idx + 1 > ov then idx + 1 - ov else 1) split
+    | ["T"; j; kd; ovr; oh; ci] ->
+      let q = { q_exported = (kd = "x"); q_override = (ovr = "1"); q_overhead = n_of_string oh; q_cindex = n_of_string ci } in
+      let j = n_of_string j in
+      let pend = pending () in
+      flushed := !nlog;
+      deliver a pend;
+      let idx = ref N0 and fired = ref false in
+      if pend <> [] && not b.lag then begin
+        let todo = List.filter (fun e -> nlt b.st.r_index e.en_index) pend in
+        (* StateMachine.handle: a task of NoOP-session updates on a concurrent machine goes through handleBatch *)
+        let is_batched = List.for_all (fun e ->
+          match e.en_body with BApp se -> se.e_client <> N0 && se.e_series = N0 | BCC _ -> false) todo in
+        if kind <> "reg" && todo <> [] && not is_batched then begin
+          match rsm_entries_to_apply pend b.st.r_index with
+          | Err _ -> raise Panic
+          | Ok es ->
+            let first = (List.hd es).en_index in
+            let target = if nlt n1 j then N.sub (util_add first j) n1 else first in
+            let lines = ref [] in
+            List.iter (fun e ->
+              match rsm_run_entries cfg b.st [e] with
+              | Ok (st', [ev]) ->
+                b.st <- st';
+                (match ev with EvApp (OApplied _) -> b.uapplied <- e.en_index | _ -> ());
+                lines := Printf.sprintf "%s.r %s %s" b.name (string_of_n e.en_index) (show_event ev) :: !lines;
+                let reported = (match ev with EvApp OIgnored | EvSkip -> false | _ -> true) in
+                if reported && not !fired && nle target e.en_index then begin
+                  fired := true;
+                  idx := do_save b q []
+                end
+              | _ -> raise Panic) es;
+            (match rsm_set_last_applied b.st es with
+             | Err _ -> raise Panic
+             | Ok st' -> b.st <- st');
+            List.iter emit (List.rev !lines)
+        end else deliver b pend
+      end;
+      if not !fired then idx := do_save b q [];
+      emit (Printf.sprintf "T idx=%s pending=%s" (string_of_n !idx) (string_of_n b.ns.n_compact_to));
+      let before = remove_log b in
+      new_removals b before
+    | ["M"; ov; pre] ->
+      flush ();
+      stream_to b (small (n_of_string ov)) (small (n_of_string pre))
+    | ["W"; _; _; _] when kind <> "disk" -> emit "W n/a"
+    | ["W"; ov; keep; pre] ->
+      let ov = small (n_of_string ov) and pre = small (n_of_string pre) in
+      flush ();
+      let idx = restart_b "W" keep in
+      let window = int_of_n b.st.r_od_init + 1 in
+      let pos = ref idx in
+      let continue = ref true in
+      while !continue do
+        if !pos <= window then stream_to b ov pre;
+        if !pos >= !flushed then continue := false
+        else if !pos < window then begin deliver b (entries_from !pos (!pos + 1)); incr pos end
+        else begin deliver b (entries_from !pos !flushed); pos := !flushed end
+      done;
+      b.lag <- false
     | ["I"; ov; split] ->
       let ov = n_of_string ov and split = int_of_string split in
       flush ();
